@@ -3,6 +3,7 @@ package props
 import (
 	"fmt"
 	"go/token"
+	"go/types"
 	"strings"
 
 	"ndndcheck/core"
@@ -414,6 +415,56 @@ func C14(c *core.Ctx) {
 			})
 			c.Decide(okStore && nStore == 2, "R14.1", "prefix-hash-slots", p.Pos(fn.Pos()), "ret[0] before the loop, ret[i+1] after feeding component i", "Name.PrefixHash does not record the running hash at slot i+1 after component i (the i-th prefix hash is not the hash of the i-component prefix)")
 		}
+	}
+
+	// ---- R14.4 the escape predicate of the URI form is a pure ASCII table: it may only
+	// compare its byte with constants < 128 and call enc.IsAlphabet
+	if lg := c.Fn("R14.4", "std/encoding", "", "isLegalCompText"); lg != nil {
+		bad := ""
+		nCmp := 0
+		for _, fn := range []*ssa.Function{lg, p.Func("std/encoding", "", "IsAlphabet")} {
+			if fn == nil {
+				bad = "IsAlphabet missing"
+				continue
+			}
+			core.Instrs(fn, func(in ssa.Instruction) {
+				switch x := in.(type) {
+				case ssa.CallInstruction:
+					id, ok := core.Callee(x.Common())
+					if !ok || !(id.Pkg == "std/encoding" && id.Name == "IsAlphabet") && !(id.Pkg == "strings" && id.Name == "IndexByte") && !(id.Pkg == "strings" && id.Name == "ContainsRune") &&
+						!(id.Pkg == "unicode" && id.Name == "IsDigit") { // frozen: the only Nd code points below U+0100 are '0'..'9'
+
+						bad = "calls " + id.String()
+					}
+				case *ssa.BinOp:
+					if k, isC := core.ConstInt(x.Y); isC {
+						nCmp++
+						if k < 0 || k > 127 {
+							bad = fmt.Sprintf("compares with %d", k)
+						}
+					}
+				}
+			})
+		}
+		c.Decide(bad == "" && nCmp >= 4, "R14.4", "legal-text-is-ascii-table", p.Pos(lg.Pos()), fmt.Sprintf("isLegalCompText is %d comparisons with ASCII constants (plus IsAlphabet)", nCmp), "isLegalCompText is no longer a pure ASCII table ("+bad+"): bytes ≥ 0x80 can be written unescaped and do not parse back to the same value")
+	}
+	// ---- R14.5 the hash functions keep their scratch state local (no package-level buffer)
+	for _, hf := range [][2]string{{"Component", "HashInto"}, {"Component", "Hash"}, {"Name", "Hash"}, {"Name", "PrefixHash"}} {
+		fn := c.Fn("R14.5", "std/encoding", hf[0], hf[1])
+		if fn == nil {
+			continue
+		}
+		bad := ""
+		core.Instrs(fn, func(in ssa.Instruction) {
+			for _, op := range in.Operands(nil) {
+				if g, ok := (*op).(*ssa.Global); ok && g.Pkg != nil && g.Pkg.Pkg.Path() == core.ModPath+"/std/encoding" && g.Name() != "hashPool" {
+					if _, isErr := g.Type().Underlying().(*types.Pointer).Elem().Underlying().(*types.Interface); !isErr {
+						bad = g.Name()
+					}
+				}
+			}
+		})
+		c.Decide(bad == "", "R14.5", "hash-state-is-local:"+hf[0]+"."+hf[1], p.Pos(fn.Pos()), "no package-level scratch state besides the hasher pool", hf[0]+"."+hf[1]+" uses the package-level variable "+bad+" as scratch state: concurrent hashing of different names interleaves their bytes, so equal names hash differently")
 	}
 
 	// ---- R14.2 index guards in the URI parsers
